@@ -113,6 +113,25 @@ def execute(plan: dict) -> Result:
             res.probes["empty_plaintext"] += 1
         k = 16 - len(pt) % 16
         padded = pt + b"A" * k
+        if pi < 6 and not big:
+            # session keys as the library derives them from ONE seed per plan, under this packet's IV
+            import hashlib
+            seed_ = hashlib.sha256(plan["packets"][0]["aes"].encode()).digest()[:16]
+            d_ = hashlib.sha256(seed_).digest()
+            try:
+                ks = BeaconKeys.from_aes_rand(seed_, iv=riv) if iv is not None else BeaconKeys.from_aes_rand(seed_)
+                if (ks.aes_key, ks.hmac_key, ks.iv) != (d_[:16], d_[16:], riv):
+                    res.violate(("C05", "session_keys_from_seed", "iv" if ks.iv != riv else "keys"),
+                                f"BeaconKeys.from_aes_rand(seed, iv={'given' if iv else 'default'}) -> iv {ks.iv!r}, expected {riv!r}; keys "
+                                f"{'ok' if (ks.aes_key, ks.hmac_key) == (d_[:16], d_[16:]) else 'differ from SHA-256 halves'}")
+                else:
+                    e2 = encrypt_packet(pt, **ks._asdict())
+                    w2 = rc.ref_encrypt(pt + b"A" * (16 - len(pt) % 16), d_[:16], d_[16:], riv)
+                    if (e2.ciphertext, e2.signature) != w2:
+                        res.violate(("C05", "ciphertext_differs", "session_keys_from_seed"), "encrypt_packet(**BeaconKeys.from_aes_rand(..)._asdict()) is not AES-CBC/HMAC under those keys and IV")
+                res.probes["keys_from_seed"] += 1
+            except Exception as e:
+                res.violate(("C05", "encrypt_raised", type(e).__name__), f"BeaconKeys.from_aes_rand / encrypt_packet raised {e!r}")
         try:
             ep = encrypt_packet(pt, aes, hm, **kw)
         except Exception as e:
